@@ -83,6 +83,16 @@ def gen_cases(tier, seed):
             "storage": rnd.choice(["deep", "flat", "gzip", "sharded", "sharded"]),
             "strategy": rnd.choice(["on disk", "in memory"]),
             "vseed": rnd.randrange(2 ** 32)})
+    # directed: isotropic volumes (cubic chunks at every level) on sharded storage
+    for k in range(6 if tier == "quick" else 40):
+        cases.append({"mode": "generated", "size": [rnd.randint(5, 40) for _ in range(3)],
+                      "resolution": [1, 1, 1], "target": rnd.choice([4, 8]),
+                      "max_scales": None, "method": rnd.choice(["average", "stride",
+                                                                "majority"]),
+                      "outside": 0.0, "dtype": rnd.choice(DTYPES), "channels": 1,
+                      "encoding": "raw", "storage": "sharded",
+                      "strategy": rnd.choice(["on disk", "in memory"]),
+                      "vseed": rnd.randrange(2 ** 32)})
     # directed: default-sized chunks (64), three or more scales, one long axis
     for k in range(4 if tier == "quick" else 30):
         size = [rnd.choice([300, 270, 513]), rnd.randint(3, 70), rnd.randint(2, 40)]
